@@ -155,8 +155,41 @@ def run_batch(obs, jobs, timeout_s, log):
         cmd += ["--harness", "kani_gen::" + registry.harness_name(o["name"])]
     cmd += ["-j", str(jobs), "--output-format", "terse", "--output-into-files", "--harness-timeout", str(int(timeout_s))]
     t0 = time.time()
-    log("kani: %d harness(es), -j %d, per-harness timeout %ds" % (len(obs), jobs, timeout_s))
-    p = subprocess.run(cmd, cwd=CONTRACTS, env=ENV, stdout=subprocess.PIPE, stderr=subprocess.STDOUT, text=True)
+    log("kani: %d harness(es), -j %d, per-harness timeout %ds (own limits enforced by watchdog)" % (len(obs), jobs, timeout_s))
+    # Kani's --harness-timeout is one value per invocation; each obligation has its own limit, enforced
+    # here by terminating the CBMC process of a harness that exceeds it (reported as undecided: timeout).
+    import threading
+    limits = {}
+    for o in obs:
+        h = registry.harness_name(o["name"])
+        limits["%d%s." % (len(h), h)] = (o["name"], o["timeout"])
+    killed = {}
+    stop = threading.Event()
+
+    def watchdog():
+        while not stop.wait(5.0):
+            try:
+                ps = subprocess.run(["ps", "-eo", "pid,etimes,args"], stdout=subprocess.PIPE, text=True).stdout
+            except OSError:
+                continue
+            for line in ps.splitlines():
+                parts = line.split(None, 2)
+                if len(parts) < 3 or not parts[2].startswith("cbmc "):
+                    continue
+                for key, (name, lim) in limits.items():
+                    if key in parts[2] and int(parts[1]) > lim and name not in killed:
+                        killed[name] = int(parts[1])
+                        try:
+                            os.kill(int(parts[0]), 15)
+                        except OSError:
+                            pass
+
+    wd = threading.Thread(target=watchdog, daemon=True)
+    wd.start()
+    try:
+        p = subprocess.run(cmd, cwd=CONTRACTS, env=ENV, stdout=subprocess.PIPE, stderr=subprocess.STDOUT, text=True)
+    finally:
+        stop.set()
     wall = time.time() - t0
     out = p.stdout
     if "Checking harness" not in out:
@@ -176,6 +209,9 @@ def run_batch(obs, jobs, timeout_s, log):
                  "failed_clauses": [], "failed_safety": [], "time_s": None, "raw_tail": "\n".join(out.splitlines()[-25:])}
         if r["status"] == "undecided" and r.get("reason") == "no verdict (None)" and "timed out" in out:
             r["reason"] = "timeout"
+        if o["name"] in killed:
+            r["status"] = "undecided"
+            r["reason"] = "timeout (obligation limit %ds)" % o["timeout"]
         r["batch_wall_s"] = round(wall, 1)
         r["engine"] = "kani 0.68.0 / cbmc 6.11.0 / " + (o.get("solver") or "cadical")
         r["harness"] = h
